@@ -265,9 +265,16 @@ func (w *world) do(o Op) (res rawRes) {
 			m, err = w.rt.InstantiateModule(ictx, w.compiled, wazero.NewModuleConfig().WithName(nameStr(o.Name)).
 				WithFSConfig(wazero.NewFSConfig().(expsysfs.FSConfig).WithSysFSMount(badFS{}, "/")))
 			if err == nil {
-				if f, ok := unwrap(m).Sys.FS().LookupFile(3); ok {
-					f.File.IsDir() // the pre-open is opened lazily: do it now
-				}
+				// the pre-open is opened lazily: do it now.  Another thread may be closing the instance (or the runtime)
+				// at this very moment, which detaches Sys: then there is nothing left to open.
+				func() {
+					defer func() { recover() }()
+					if s := unwrap(m).Sys; s != nil {
+						if f, ok := s.FS().LookupFile(3); ok {
+							f.File.IsDir()
+						}
+					}
+				}()
 			}
 		case "bin":
 			m, err = w.rt.InstantiateWithConfig(ictx, freshBinary(), wazero.NewModuleConfig().WithName(nameStr(o.Name)))
